@@ -47,6 +47,9 @@ type Case struct {
 	// Reuse: the application writes every record into one long-lived list of element objects
 	// (setters; ResetValue for empty values) and one set object; one record per set.
 	Reuse bool `json:"reuse,omitempty"`
+	// MaxBuf (udp): the collector's MaxBufferSize (0: 65535). No message of the session is longer;
+	// one exactly that long is a complete datagram and must be delivered.
+	MaxBuf uint16 `json:"max_buf,omitempty"`
 }
 
 var (
@@ -100,6 +103,29 @@ func (s *sink) snapshot() []*entities.Message {
 
 const sentinelID = 65000
 
+// lostUDP is set by runCase when a plain-udp session ended without a verdict because a message
+// did not arrive.
+var lostUDP string
+var gentle bool
+
+// runJudged runs a session; a plain-udp session that loses a message is run again, up to three
+// times: a datagram lost on the loopback is a rare, random event, the same session losing a
+// message three times in a row is the collector (or exporter) dropping it.
+func runJudged(c Case) (*ev.Failure, bool) {
+	defer func() { gentle = false }()
+	for attempt := 1; ; attempt++ {
+		lostUDP = ""
+		gentle = attempt > 1 // the repeats pause after every send, so that no socket buffer can overflow
+		f, judged := runCase(c)
+		if judged || lostUDP == "" {
+			return f, judged
+		}
+		if attempt == 3 {
+			return ev.Failf("over udp, three times in a row: %s although every SendSet succeeded (a valid message is dropped)", lostUDP), true
+		}
+	}
+}
+
 // runCase returns (failure, judged): judged is false when the session was inconclusive
 // (environment, UDP loss).
 func runCase(c Case) (*ev.Failure, bool) {
@@ -108,6 +134,9 @@ func runCase(c Case) (*ev.Failure, bool) {
 		host = "[::1]:0"
 	}
 	in := collector.CollectorInput{Address: host, MaxBufferSize: 65535, IsIPv6: c.V6, TemplateTTL: 3600}
+	if c.MaxBuf > 0 && c.Transport == "udp" {
+		in.MaxBufferSize = c.MaxBuf
+	}
 	switch c.Transport {
 	case "tcp", "tls":
 		in.Protocol = "tcp"
@@ -201,6 +230,9 @@ func runCase(c Case) (*ev.Failure, bool) {
 		if _, err := ep.SendSet(set); err != nil {
 			return ev.Failf("%s: SendSet over %s failed: %v", what, c.Transport, err)
 		}
+		if gentle {
+			time.Sleep(5 * time.Millisecond)
+		}
 		return nil
 	}
 	if f := send("template", func() (entities.Set, error) { return exph.TemplateSet(c.ID, c.Fields, c.Path%4) }); f != nil {
@@ -249,7 +281,8 @@ func runCase(c Case) (*ev.Failure, bool) {
 		}
 		if time.Now().After(deadline) {
 			if in.Protocol == "udp" && c.Transport == "udp" {
-				return nil, false // datagram lost on loopback: inconclusive
+				lostUDP = fmt.Sprintf("the collector delivered %d of %d messages", len(got), want)
+				return nil, false // datagram lost on loopback: inconclusive (see runJudged)
 			}
 			if c.Transport == "dtls" {
 				return nil, false
@@ -263,6 +296,7 @@ func runCase(c Case) (*ev.Failure, bool) {
 	}
 	if len(got) != want {
 		if c.Transport == "udp" && len(got) < want {
+			lostUDP = fmt.Sprintf("the collector delivered %d of %d messages", len(got), want)
 			return nil, false
 		}
 		return ev.Failf("over %s the collector delivered %d messages, the exporter was given %d sets", c.Transport, len(got), want), true
@@ -367,7 +401,10 @@ func genCase(t *rapid.T) Case {
 	for i := 0; i < n; i++ {
 		c.Fields = append(c.Fields, pool[rapid.IntRange(0, len(pool)-1).Draw(t, "f")])
 	}
-	if c.Transport != "dtls" && rapid.IntRange(0, 3).Draw(t, "prior") == 0 {
+	if c.Transport == "udp" {
+		c.MaxBuf = rapid.SampledFrom([]uint16{0, 0, 0, 512, 1500, 9000, 65507}).Draw(t, "max_buf")
+	}
+	if c.Transport != "dtls" && c.MaxBuf == 0 && rapid.IntRange(0, 3).Draw(t, "prior") == 0 {
 		twin := rapid.Bool().Draw(t, "twin")
 		for _, f := range c.Fields {
 			pf := pool[rapid.IntRange(0, len(pool)-1).Draw(t, "pf")]
@@ -390,6 +427,9 @@ func genCase(t *rapid.T) Case {
 	}
 	c.Reuse = rapid.IntRange(0, 3).Draw(t, "reuse") == 0
 	limit := maxMessage(c.Transport, c.V6)
+	if c.MaxBuf > 0 && int(c.MaxBuf) < limit {
+		limit = int(c.MaxBuf)
+	}
 	if c.Transport == "dtls" && rapid.IntRange(0, 4).Draw(t, "dtlsbig") == 0 {
 		limit = 65535 // the open-finding class D10 (excluded from the oracle while the finding is open)
 	}
@@ -491,7 +531,7 @@ func classify(c Case) (bool, []string, int) {
 			maxMsg = size
 		}
 	}
-	for k, b := range map[string]bool{"enterprise_element": ent, "length_254_255_256": boundary, "multi_record": nrec >= 2, "message_at_transport_maximum": maxMsg == maxMessage(c.Transport, c.V6), "message_over_60000": maxMsg > 60000, "template_id_reused_by_a_later_session": len(c.Prior) > 0, "refresh_round_with_two_templates": len(c.Second) > 0, "application_reuses_its_element_objects": c.Reuse} {
+	for k, b := range map[string]bool{"enterprise_element": ent, "length_254_255_256": boundary, "multi_record": nrec >= 2, "message_at_transport_maximum": maxMsg == maxMessage(c.Transport, c.V6), "message_over_60000": maxMsg > 60000, "template_id_reused_by_a_later_session": len(c.Prior) > 0, "refresh_round_with_two_templates": len(c.Second) > 0, "application_reuses_its_element_objects": c.Reuse, "message_exactly_fills_the_collector_buffer": c.MaxBuf > 0 && maxMsg == int(c.MaxBuf)} {
 		if b {
 			cl = append(cl, k)
 		}
@@ -567,7 +607,7 @@ func TestC01(t *testing.T) {
 					c.Sets = [][][]ref.Value{{r}}
 				}
 				nt, cl, _ := classify(c)
-				f, judged := runCase(c)
+				f, judged := runJudged(c)
 				if judged {
 					rec.Case(ev.Hash(c), nt, append(cl, "preamble")...)
 				}
@@ -584,7 +624,7 @@ func TestC01(t *testing.T) {
 			rec.Excluded("D10_dtls_message_over_8000_bytes")
 			return nil
 		}
-		f, judged := runCase(c)
+		f, judged := runJudged(c)
 		if !judged {
 			rec.Class("inconclusive_session", 1)
 			return nil
